@@ -392,6 +392,25 @@ func (w *World) declBox(t types.Type, id int, d *Decls) {
 	fmt.Fprintf(&b, "(declare-fun box$%d (%s) Val)\n(declare-fun unbox$%d (Val) %s)\n", id, s, id, s)
 	fmt.Fprintf(&b, "(assert (forall ((x %s)) (! (and (= (unbox$%d (box$%d x)) x) (= (typeof (box$%d x)) %d)) :pattern ((box$%d x)))))\n", s, id, id, id, id, id)
 	fmt.Fprintf(&b, "(assert (forall ((v Val)) (! (=> (= (typeof v) %d) (= (box$%d (unbox$%d v)) v)) :pattern ((unbox$%d v)))))", id, id, id, id)
+	// a struct whose fields are comparable in depth or interfaces: == on it can panic only
+	// through the value one of those interface fields holds
+	if st, ok := types.Unalias(t).Underlying().(*types.Struct); ok && types.Comparable(t) && holdsInterface(t, 0) && s != "RV" {
+		var parts []string
+		okAll := true
+		for i := 0; i < st.NumFields(); i++ {
+			ft := st.Field(i).Type()
+			switch {
+			case !holdsInterface(ft, 0):
+			case w.sortOf(ft, d) == SVal:
+				parts = append(parts, fmt.Sprintf("(vcomparable (%s x))", w.fieldSel(t, i)))
+			default:
+				okAll = false
+			}
+		}
+		if okAll && len(parts) > 0 {
+			fmt.Fprintf(&b, "\n(assert (forall ((x %s)) (! (= (vcomparable (box$%d x)) (and %s true)) :pattern ((box$%d x)))))", s, id, strings.Join(parts, " "), id)
+		}
+	}
 	// generic payload links
 	switch k := kindOfType(t); {
 	case k >= 2 && k <= 12:
